@@ -44,7 +44,7 @@ class Run:
 
     def record(self, r):
         rr = {k: v for k, v in r.items() if k != 'meta'}
-        rr['meta'] = {k: v for k, v in (r.get('meta') or {}).items() if k != 'case'}
+        rr['meta'] = {k: v for k, v in (r.get('meta') or {}).items() if k not in ('case', 'kernel', 'known') and isinstance(v, (str, int, float, list, dict, bool, type(None)))}
         self.results.append(rr)
 
     def finish(self, rule, trusted=None, explanation=None):
